@@ -12,8 +12,41 @@ def hexs(bs):
     return bytes(bs).hex()
 
 
+def rule_kinds(prog, workdir):
+    """Kinds of trailing context per rule, from the extracted GenParse.rule_kind."""
+    case = "(case %s\n(queries ((kinds))))\n" % scanner.sx_program(prog)
+    rc, out, err = scanner.run_driver(case, workdir, name="kinds.sx", timeout=60)
+    for line in out.splitlines():
+        if line.startswith("kinds"):
+            return line.split()[1:]
+    return []
+
+
+def expected_refusal(prog, flex_opts, backend, workdir, uses_reject=False):
+    """Messages one of which flex must give if the manual says the combination is refused; None otherwise."""
+    tbl = [o for o in flex_opts if o.startswith("-C")]
+    full = any(("f" in o[2:]) for o in tbl)
+    fast = any(("F" in o[2:]) for o in tbl)
+    if backend == 'cxx' and fast:
+        return ["Can't use -+ with -CF option"]
+    if full and fast:
+        return ["mutually exclusive"]
+    if (full or fast) and "-I" in flex_opts:
+        return ["-Cf/-CF and -I are incompatible"]
+    if (full or fast) and any("m" in o[2:] for o in tbl):
+        return ["don't make sense together"]
+    if full or fast:
+        if uses_reject:
+            return ["REJECT cannot be used with -f or -F"]
+        if any(r.get('trail') not in (None, '$') for r in prog['rules']):
+            if 'variable' in rule_kinds(prog, workdir):
+                return ["variable trailing context rules cannot be used with -f or -F",
+                        "%option yylineno cannot be used with REJECT"]
+    return None
+
+
 def eval_case(flex, workdir, prog, spec_text, flex_opts, inputs, fuel=30000, check_lockstep=True,
-              compile_scanner=True, run_scs=None, cc_extra=None, driver_timeout=300, backend='nr'):
+              compile_scanner=True, run_scs=None, cc_extra=None, driver_timeout=120, backend='nr', uses_reject=False):
     """run_scs: list of start conditions (1-based) in which each input is scanned (default [1])."""
     res = {'problems': [], 'lockstep': [], 'streams': [], 'flex_opts': list(flex_opts)}
     os.makedirs(workdir, exist_ok=True)
@@ -28,8 +61,16 @@ def eval_case(flex, workdir, prog, spec_text, flex_opts, inputs, fuel=30000, che
     # the property excludes rule sets for which flex prints this warning (C06)
     res['dangerous'] = "dangerous trailing context" in err.decode(errors="replace")
     if rc != 0:
-        res['problems'].append(('flex-error', res['flex_err'][:300]))
+        exp = expected_refusal(prog, flex_opts, backend, workdir, uses_reject=uses_reject)
+        res['refused'] = True
+        if exp and any(m in res['flex_err'] for m in exp):
+            res['refusal_documented'] = True
+        else:
+            res['problems'].append(('flex-error', res['flex_err'][:300]))
         return res
+    exp = expected_refusal(prog, flex_opts, backend, workdir, uses_reject=uses_reject)
+    if exp:
+        res['problems'].append(('missing-refusal', "flex accepted a combination the manual says it refuses: expected one of %s" % exp))
     with open(os.path.join(workdir, cfile), errors="replace") as f:
         src = f.read()
     try:
@@ -91,6 +132,10 @@ def eval_case(flex, workdir, prog, spec_text, flex_opts, inputs, fuel=30000, che
                 order.append(('validate', ii, sc))
     case = "(case %s\n%s\n(queries (%s)))\n" % (scanner.sx_program(prog), tsx, "\n".join(queries))
     rc, out, err = scanner.run_driver(case, workdir, timeout=driver_timeout)
+    if rc == "timeout":
+        # the checker ran out of time: nothing is concluded for this case (counted, never a pass)
+        res['problems'].append(('inconclusive', "driver timeout"))
+        return res
     if rc != 0:
         res['problems'].append(('driver-error', "rc=%s %s" % (rc, err[:300])))
         return res
@@ -146,4 +191,136 @@ def eval_case(flex, workdir, prog, spec_text, flex_opts, inputs, fuel=30000, che
         rr = [(a, b) for a, b, _ in r]
         if rr != [tuple(x) for x in v]:
             res['problems'].append(('model-mismatch', "sc=%d input=%s real=%s model=%s" % (sc, hexs(inputs[ii]), rr[:30], v[:30])))
+    return res
+
+
+# ------------------------------------------------------------------ REJECT programs
+def policy_c(pol, i, rej="REJECT", leng="yyleng"):
+    k = pol[0]
+    if k == 'never':
+        return ""
+    if k == 'always':
+        return " %s;" % rej
+    if k == 'lengt':
+        return " if (%s > %d) %s;" % (leng, pol[1], rej)
+    if k == 'first':
+        return " if (cnt[%d]++ < %d) %s;" % (i, pol[1], rej)
+    raise ValueError(k)
+
+
+def policy_sx(pols):
+    out = []
+    for i, p in sorted(pols.items()):
+        out.append("(%d %s)" % (i, " ".join(str(x) for x in p)))
+    return "(" + " ".join(out) + ")"
+
+
+def eval_reject_case(flex, workdir, prog, policies, rng, flex_opts, inputs, backend='nr', spelling='REJECT',
+                     fuel=30000, run_scs=None, cc_extra=None, extra_options=None):
+    """policies: {rule number: policy tuple}.  The scanner prints an event for every action executed."""
+    import backends
+    res = {'problems': [], 'lockstep': [], 'streams': [], 'flex_opts': list(flex_opts)}
+    os.makedirs(workdir, exist_ok=True)
+    nrules = len(prog['rules'])
+    rej = spelling
+    leng = "yyleng"
+    if backend == 'c99':          # the c99 back end has no legacy macros
+        rej = "yyreject()"
+        leng = "yyget_leng(yyscanner)"
+    actions = {}
+    for i in range(nrules):
+        actions[i] = "tok(%d);%s" % (i + 1, policy_c(policies.get(i + 1, ('never',)), i + 1, rej, leng))
+    extra_top = "static int cnt[%d];\n" % (nrules + 3)
+    options = list(extra_options or [])
+    if prog.get('caseins'):
+        options.append("case-insensitive")
+    text = scanner.make_spec(prog, rng, options=options, actions=actions, extra_top=extra_top, backend=backend)
+    res['text'] = text
+    with open(os.path.join(workdir, "s.l"), "w") as f:
+        f.write(text)
+    cfile = "s." + backends.BACKENDS[backend]['ext']
+    rc, out, err = scanner.run_flex(flex, "s.l", cfile, flex_opts, workdir)
+    res['flex_rc'] = rc
+    res['flex_err'] = err.decode(errors="replace")[:2000]
+    uses = any(p[0] != 'never' for p in policies.values())
+    exp = expected_refusal(prog, flex_opts, backend, workdir, uses_reject=uses)
+    if rc != 0:
+        res['refused'] = True
+        if exp and any(m in res['flex_err'] for m in exp):
+            res['refusal_documented'] = True
+        else:
+            res['problems'].append(('flex-error', res['flex_err'][:300]))
+        return res
+    if exp:
+        res['problems'].append(('missing-refusal', "expected one of %s" % exp))
+        return res
+    with open(os.path.join(workdir, cfile), errors="replace") as f:
+        src = f.read()
+    try:
+        t = tables.parse_scanner(src)
+        tsx = tables.tables_sexp(t, "t")
+    except (tables.TableError, KeyError, IndexError) as ex:
+        res['problems'].append(('tables-unreadable', repr(ex)))
+        return res
+    res['lastdfa'] = t.get('lastdfa')
+    res['reject_tables'] = tables.is_reject(t)
+    if uses and not tables.is_reject(t):
+        res['problems'].append(('reject-not-detected', "an action uses %s but the scanner was generated without REJECT support" % spelling))
+    rc, out, err = scanner.compile_c(cfile, "s.exe", workdir, extra=(cc_extra or []) + ["-I" + os.path.dirname(flex)], backend=backend)
+    if rc != 0:
+        res['problems'].append(('compile-error', err.decode(errors="replace")[:600]))
+        return res
+    nsc = 1 + len(prog.get('scs', []))
+    run_scs = run_scs or [1]
+    queries = []
+    if tables.is_reject(t):
+        varsx = "(" + " ".join(str(v) for v in tables.var_rules(t)) + ")"
+        for sc in range(1, nsc + 1):
+            for bol in (0, 1):
+                queries.append("(lockstep_r t %s %d %d %d)" % (varsx, sc, bol, fuel))
+    nls = len(queries)
+    order = []
+    real = {}
+    psx = policy_sx(policies)
+    for ii, w in enumerate(inputs):
+        ipath = os.path.join(workdir, "in%d.bin" % ii)
+        with open(ipath, "wb") as f:
+            f.write(bytes(w))
+        wsx = "(" + " ".join(str(b) for b in w) + ")"
+        for sc in run_scs:
+            rc, out, err = run([os.path.join(workdir, "s.exe"), ipath, str(sc - 1)], timeout=20)
+            if rc != 0:
+                res['problems'].append(('scanner-abnormal', "rc=%s sc=%d input=%s stderr=%s" % (rc, sc, hexs(w), err.decode(errors="replace")[:200])))
+                continue
+            real[(ii, sc)] = scanner.parse_tokens(out)
+            queries.append("(rejtokens spec %d 1 %s %s)" % (sc, wsx, psx))
+            order.append(('spec', ii, sc))
+            if tables.is_reject(t):
+                queries.append("(rejtokens t %d 1 %s %s)" % (sc, wsx, psx))
+                order.append(('view', ii, sc))
+    case = "(case %s\n%s\n(queries (%s)))\n" % (scanner.sx_program(prog), tsx, "\n".join(queries))
+    rc, out, err = scanner.run_driver(case, workdir, timeout=300)
+    if rc != 0:
+        res['problems'].append(('driver-error', "rc=%s %s" % (rc, err[:300])))
+        return res
+    lines = out.splitlines()
+    for line in lines[:nls]:
+        res['lockstep'].append(line)
+        parts = line.split()
+        verdict = parts[4] if len(parts) > 4 else "missing"
+        if verdict == "OK":
+            continue
+        res['problems'].append(('inconclusive' if verdict == "INCONCLUSIVE" else 'lockstep-' + verdict.lower(), line))
+    for (kind, ii, sc), line in zip(order, lines[nls:]):
+        toks = scanner.parse_driver_tokens(line.split(" ", 2)[2] if line.count(" ") >= 2 else "")
+        r = real[(ii, sc)]
+        rr = [(a, b) for a, b, _ in r]
+        if kind == 'spec':
+            okv = rr == [tuple(x) for x in toks]
+            res['streams'].append({'input': hexs(inputs[ii]), 'sc': sc, 'real': rr, 'valid': okv, 'text_ok': True, 'expected': toks[:60]})
+            if not okv:
+                res['problems'].append(('token-mismatch', "sc=%d input=%s real=%s expected=%s" % (sc, hexs(inputs[ii]), rr[:30], toks[:30])))
+        else:
+            if rr != [tuple(x) for x in toks]:
+                res['problems'].append(('model-mismatch', "sc=%d input=%s real=%s model=%s" % (sc, hexs(inputs[ii]), rr[:30], toks[:30])))
     return res
